@@ -48,7 +48,8 @@ def absVT (t : VT) (i : Nat) : Option (Bytes × Bytes × Bool) :=
   | _ => none
 
 /-- One value table as the index model sees it: `Index.Col.values` restricted to one size tier
-(cells by slot number) and the tier's allocator state `Index.Tier` (fill mark, LIFO free list). -/
+(cells by slot number, at the HEAD slot of a value) and the tier's allocator state `Index.Tier`
+(fill mark, LIFO free list, continuation slots of the multi-slot values). -/
 structure AStore where
   cell : Nat → Option (Bytes × Bytes × Bool)
   tier : Tier
@@ -56,23 +57,28 @@ structure AStore where
 /-- `Index.Col.alloc` on one tier -/
 def AStore.alloc (A : AStore) : Nat × AStore :=
   match A.tier.free with
-  | o :: rest => (o, { A with tier := ⟨A.tier.filled, rest⟩ })
-  | [] => (A.tier.filled, { A with tier := ⟨A.tier.filled + 1, []⟩ })
+  | o :: rest => (o, { A with tier := ⟨A.tier.filled, rest, A.tier.chains⟩ })
+  | [] => (A.tier.filled, { A with tier := ⟨A.tier.filled + 1, [], A.tier.chains⟩ })
 
 def AStore.setCell (A : AStore) (a : Nat) (o : Option (Bytes × Bytes × Bool)) : AStore :=
   { A with cell := fun i => if i = a then o else A.cell i }
 
-/-- `write_plan_new`, value-table part: `alloc` then `setVal` -/
-def AStore.insert (A : AStore) (x : Bytes × Bytes × Bool) : Nat × AStore :=
-  (A.alloc.1, A.alloc.2.setCell A.alloc.1 (some x))
+/-- `Index.Col.resize` on one tier: the value at head slot `h` takes `m` continuation slots -/
+def AStore.resize (A : AStore) (h m : Nat) : AStore := { A with tier := A.tier.resize h m }
 
-/-- `write_replace_plan`: `setVal` on the same slot -/
-def AStore.replace (A : AStore) (a : Nat) (x : Bytes × Bytes × Bool) : AStore :=
-  A.setCell a (some x)
+/-- `write_plan_new`, value-table part: `alloc`, `setVal`, `resize` (`m` continuation slots) -/
+def AStore.insert (A : AStore) (x : Bytes × Bytes × Bool) (m : Nat) : Nat × AStore :=
+  (A.alloc.1, (A.alloc.2.setCell A.alloc.1 (some x)).resize A.alloc.1 m)
 
-/-- `write_remove_plan`: `release` then `setVal none` -/
+/-- `write_replace_plan`: `setVal` on the same head slot, `resize` -/
+def AStore.replace (A : AStore) (a : Nat) (x : Bytes × Bytes × Bool) (m : Nat) : AStore :=
+  (A.setCell a (some x)).resize a m
+
+/-- `write_remove_plan`: `release` (the whole chain) then `setVal none` -/
 def AStore.remove (A : AStore) (a : Nat) : AStore :=
-  { (A.setCell a none) with tier := ⟨A.tier.filled, a :: A.tier.free⟩ }
+  { (A.setCell a none) with
+    tier := ⟨A.tier.filled, (a :: chainRest A.tier.chains a).reverse ++ A.tier.free,
+      chainDrop A.tier.chains a⟩ }
 
 /-! ## R3: the physical plain hash column -/
 
